@@ -19,6 +19,8 @@ Tol_S_mie            == -6000   \* Lorenz-Mie S vs textbook, x < 50 (single-prec
 Tol_S_mie_big        == -4000   \* x >= 50: default continued-fraction tolerance (measured 1e-5)
 Tol_S_pyseries       == -5500   \* pure-Python series, documented ~1e-6
 Tol_mie_multisphere_default == -2000  \* default cluster-solver truncation qeps1=1e-5 (measured up to 3.9e-3 at x=23)
+Tol_mie_multisphere_default_dense == -1500  \* relative index 2.5, x ~ 17..23 near field: measured 4e-5 .. 1.4e-2 (resonances)
+Tol_mie_multisphere_tight_dense   == -3500  \* same class, tight settings: measured 4e-7 .. 9e-5
 Tol_mie_multisphere_tight   == -4000  \* with eps=1e-12, qeps1=1e-9, qeps2=1e-12 (measured <= 9.2e-6)
 Tol_cs_ext_is_sum    == -12000  \* ext - (sca + abs), relative (measured 0)
 Tol_cs_abs_nonneg    == -9000   \* negative part of abs / ext; abs/ext for real index, homogeneous (measured <= 1.9e-11 at x=460)
@@ -30,7 +32,9 @@ Tol_cs_rayleigh      == -3500   \* Rayleigh formula at x ~ 1e-3: O(x^2) correcti
 Tol_cs_textbook      == -6000   \* four numbers vs independent series
 Tol_cs_multisphere   == -3500   \* one-sphere cluster vs Mie (measured <= 1.3e-6 .. default truncation)
 Tol_lens_interp      == -8000   \* MieLens interpolation on/off/check, window/degree variants (calibrating)
-Tol_lens_quad        == -6000   \* MieLens quad_npts 100 vs 200 (calibrating)
+Tol_lens_quad        == -5000   \* MieLens default quadrature vs refined: "does not change" is judged at the same 1e-5 as the
+                                \* agreement of the two routes (Tol_lens_numeric); was -6000 while calibrating, and the extreme
+                                \* thorough-only class x=50, kz=300, angle 1.4 inside the cutoff measured 3e-6
 Tol_lens_aberr0      == -11000  \* AberratedMieLens with zero coefficients vs MieLens (calibrating)
 Tol_lens_numeric     == -5000   \* converged Lens(Mie) vs MieLens (measured 8e-9 at moderate classes)
 Tol_fit_recover      == -6000   \* fitted vs generating parameters, relative (measured 1e-12 .. 1e-9)
